@@ -5,6 +5,7 @@ pub trait SliceExt {
     fn slice_from(&self, a: usize) -> (r: &[u8]) requires a <= self.sview().len() ensures r@ == self.sview().skip(a as int);
     fn slice(&self, a: usize, b: usize) -> (r: &[u8]) requires a <= b <= self.sview().len() ensures r@ == self.sview().subrange(a as int, b as int);
     fn at(&self, i: usize) -> (r: u8) requires i < self.sview().len() ensures r == self.sview()[i as int];
+    fn starts_with(&self, p: &[u8]) -> (r: bool) ensures r == (p@.len() <= self.sview().len() && self.sview().take(p@.len() as int) =~= p@);
 }
 impl SliceExt for [u8] {
     open spec fn sview(&self) -> Seq<u8> { self@ }
@@ -16,4 +17,6 @@ impl SliceExt for [u8] {
     fn slice(&self, a: usize, b: usize) -> (r: &[u8]) { &self[a..b] }
     #[verifier::external_body]
     fn at(&self, i: usize) -> (r: u8) { self[i] }
+    #[verifier::external_body]
+    fn starts_with(&self, p: &[u8]) -> (r: bool) { <[u8]>::starts_with(self, p) }
 }
